@@ -153,3 +153,26 @@ package null
 //@   safety C14
 //@   assigns nothing
 //@   ensures[C14,C09] result.Type == 8 && result.LogicalType == 1 && result.ExplicitPresence && result.Index == 0 && len(result.Name) == 0 && len(result.TypeName) == 0 && len(result.Elements) == 0
+
+// --- interned null.String -----------------------------------------------------
+
+//@ func null.*internedNullStringCodec.Read
+//@   safety C19 C04 C11
+//@   ensures[C19,C04,C05] err == nil ==> 0 <= n && n <= len(data)
+//@   ensures[C19,C09] err == nil ==> loadbool(ptr + 16)
+
+//@ func null.*internedNullStringCodec.Omit
+//@   safety C19
+//@   assigns nothing
+//@   ensures[C19,C09] result == !loadbool(ptr + 16)
+
+//@ func null.*internedNullStringCodec.Size
+//@   safety C19
+//@   assigns nothing
+//@   ensures[C19,C05] len(tag) == 0 ==> result == len(loadstr(ptr))
+//@   ensures[C19,C05] len(tag) > 0 ==> result == len(tag) + vlen(uint64(len(loadstr(ptr)))) + len(loadstr(ptr))
+
+//@ func null.*internedNullStringCodec.Append
+//@   safety C19 C11
+//@   assigns nothing
+//@   appends[C19,C02,C05] data ite(len(tag) != 0, bytes(tag) ++ venc(uint64(len(loadstr(ptr)))) ++ bytes(loadstr(ptr)), bytes(loadstr(ptr)))
